@@ -170,7 +170,7 @@ def number_text(neg_ok=True):
     pos = st.one_of(
         st.integers(1, 12).map(str),
         st.sampled_from(['2.54', '0.5', '.5', '5.', '1.0', '100.0', '4.184', '760', '33000', '1000', '60', '10',
-                         '6.02214179', '0.001', '3']),
+                         '6.02214179', '0.001', '3', '1e3', '2.5E-3', '6.02e23', '1e+06', '1.5e-05', '4E0']),
         st.tuples(st.integers(0, 999), st.integers(1, 999)).map(lambda t: '%d.%03d' % t).filter(lambda s: float(s) != 0))
     if not neg_ok:
         return pos
@@ -533,7 +533,7 @@ UNKNOWN = ['foo', 'Joule', 'kcals', 'xyz', 'Kelvin', 'mols', 'q', 'kk', 'dak', '
 def malformed_case(draw):
     form = draw(st.sampled_from(['empty', 'unbalanced-open', 'unbalanced-close', 'dangling-op', 'leading-op',
                                  'caret-no-number', 'caret-name', 'two-dots', 'unknown-name', 'illegal-char',
-                                 'double-op', 'empty-parens', 'e-notation']))
+                                 'double-op', 'empty-parens', 'bad-exponent-notation']))
     v = draw(_valid_texts())
     if form == 'empty':
         t = draw(st.sampled_from(['', ' ', '\t', '  \n']))
@@ -560,7 +560,7 @@ def malformed_case(draw):
     elif form == 'empty-parens':
         t = v + ' ()'
     else:
-        t = draw(st.sampled_from(['1e5 m', '2.5E3 J', '1e-3 kg', '6.02e23 /mol']))
+        t = draw(st.sampled_from(['1e m', '2.5E+ J', '1ee3 kg', '6.02e2.3.1 /mol', '1e-', 'e5 m']))
     return dict(kind='malformed', text=t, form=form)
 
 
